@@ -17,6 +17,7 @@ thread_local! {
     static LEAD_AT_CAP: Cell<u64> = const { Cell::new(0) };
     static SIGN_FLIP: Cell<u64> = const { Cell::new(0) };
     static RESPLIT: Cell<u64> = const { Cell::new(0) };
+    static HUGE_LEAD: Cell<u64> = const { Cell::new(0) };
 }
 fn bump(c: &'static std::thread::LocalKey<Cell<u64>>) {
     c.with(|c| c.set(c.get() + 1));
@@ -184,6 +185,90 @@ fn run_schedule_inner(rep: &mut Report, cap: usize, sched: &[bool], mode: Mode, 
     }
 }
 
+// ------------------------------------------------------------------ huge ring buffer (64-bit hosts)
+/// A fork over `Bounded::from(vec![0u8; 2^32 + r])`: the capacity does not fit 32 bits. calloc
+/// backs only the pages the probe touches. Frame p of the source is `(p % 251) as u8`; the lead
+/// stays below 200, so a lost, duplicated or misplaced frame always shows as a wrong value.
+fn huge_fork_probe(rep: &mut Report, seed: u64, r: usize, by_rc: bool, steps: usize) -> bool {
+    let case = format!("huge=1;seed={};r={};rc={};steps={}", seed, r, by_rc as u8, steps);
+    let res = vmon::catch(|| {
+        let cap: usize = (1usize << 32) + r;
+        let pulls = std::rc::Rc::new(Cell::new(0u64));
+        let p2 = pulls.clone();
+        let src = dasp_signal::gen_mut(move || {
+            let p = p2.get();
+            p2.set(p + 1);
+            (p % 251) as u8
+        });
+        let mut fork = src.fork(ring_buffer::Bounded::from(vec![0u8; cap]));
+        let mut rng = Rng::derive(seed, &[120, r as u64, by_rc as u64]);
+        let (mut pa, mut pb) = (0u64, 0u64);
+        let mut errs: Vec<(String, String)> = Vec::new();
+        macro_rules! run {
+            ($a:expr, $b:expr) => {{
+                let mut run_a = true;
+                let mut left = 0usize;
+                for step in 0..steps {
+                    if left == 0 {
+                        // runs of up to 150 pulls on one branch: the lead crosses 8, 16, 64, 128
+                        run_a = !run_a;
+                        left = 1 + rng.usize_below(150);
+                    }
+                    left -= 1;
+                    let lead = pa as i64 - pb as i64;
+                    let is_a = if lead >= 190 { false } else if lead <= -190 { true } else { run_a };
+                    let pos = if is_a { pa } else { pb };
+                    let got = if is_a { $a.next() } else { $b.next() };
+                    if is_a {
+                        pa += 1
+                    } else {
+                        pb += 1
+                    }
+                    bump(&EVALS);
+                    if got != (pos % 251) as u8 {
+                        errs.push(("fork|huge_ring|wrong_frame".into(), format!("step {} branch {}: returned {} at position {} (expected {}), lead {}", step, if is_a { 'A' } else { 'B' }, got, pos, pos % 251, lead)));
+                        break;
+                    }
+                    let pulled = pa.max(pb);
+                    if pulls.get() != pulled {
+                        errs.push(("fork|huge_ring|source_pull_count".into(), format!("step {}: source pulled {} times, distinct frames consumed {}", step, pulls.get(), pulled)));
+                        break;
+                    }
+                    let (qa, qb) = ($a.pending_frames() as u64, $b.pending_frames() as u64);
+                    if qa != pulled - pa || qb != pulled - pb {
+                        errs.push(("fork|huge_ring|pending_frames".into(), format!("step {}: pending_frames A={} B={}, lags are A={} B={}", step, qa, qb, pulled - pa, pulled - pb)));
+                        break;
+                    }
+                    if (pa as i64 - pb as i64).unsigned_abs() > 8 {
+                        bump(&HUGE_LEAD);
+                    }
+                }
+            }};
+        }
+        if by_rc {
+            let (mut a, mut b) = fork.by_rc();
+            run!(a, b);
+        } else {
+            let (mut a, mut b) = fork.by_ref();
+            run!(a, b);
+        }
+        errs
+    });
+    match res {
+        Ok(errs) => {
+            let ok = errs.is_empty();
+            for (sig, d) in errs {
+                rep.violation(&sig, format!("ring buffer capacity 2^32+{} ({}): {}", r, if by_rc { "by_rc" } else { "by_ref" }, d), case.clone());
+            }
+            ok
+        }
+        Err(m) => {
+            rep.violation("fork|huge_ring|panic", format!("ring buffer capacity 2^32+{}: panicked: {}", r, m), case);
+            false
+        }
+    }
+}
+
 /// every maximal legal schedule of length `len` for capacity `cap`
 fn enumerate(cap: usize, len: usize, mut f: impl FnMut(&[bool])) {
     fn rec(cap: i64, len: usize, lead: i64, cur: &mut Vec<bool>, f: &mut dyn FnMut(&[bool])) {
@@ -244,6 +329,10 @@ fn flush(rep: &mut Report) {
     rep.hit_n("lead_reached_capacity", LEAD_AT_CAP.with(|c| c.replace(0)));
     rep.hit_n("lead_changed_sign", SIGN_FLIP.with(|c| c.replace(0)));
     rep.hit_n("re_split", RESPLIT.with(|c| c.replace(0)));
+    let h = HUGE_LEAD.with(|c| c.replace(0));
+    if h > 0 {
+        rep.hit_n("huge_ring_lead_above_8", h);
+    }
 }
 
 fn main() {
@@ -252,6 +341,12 @@ fn main() {
     let mut rep = Report::new("C12", &cli.stage);
     if let Some(cs) = &cli.case {
         let m = vmon::cli::parse_case(cs);
+        if m.contains_key("huge") {
+            eprintln!("CASE {}", cs);
+            huge_fork_probe(&mut rep, m["seed"].parse().unwrap(), m["r"].parse().unwrap(), m["rc"] == "1", m["steps"].parse().unwrap());
+            flush(&mut rep);
+            finish(&cli, rep, t0);
+        }
         let cap: usize = m["cap"].parse().unwrap();
         let sched: Vec<bool> = m["sched"].chars().map(|c| c == 'A').collect();
         let ms = m["mode"].as_str();
@@ -276,7 +371,7 @@ fn main() {
     }
     let lean = cli.stage == "miri";
     match cli.stage.as_str() {
-        "main" | "asan" => {
+        "main" | "release" | "asan" => {
             let len = if cli.stage == "asan" { 10 } else { cli.t(12, 18) };
             let caps: Vec<usize> = (1..=4).collect();
             let reps = vmon::par_for(cli.threads, caps.len() as u64 * 2, 1, |_| Report::new("C12", "w"), |rep, i| {
@@ -303,6 +398,15 @@ fn main() {
             });
             for r in reps {
                 rep.merge(r);
+            }
+            if cli.stage != "asan" && usize::BITS >= 64 {
+                rep.oblige("huge_ring_lead_above_8", 1);
+                for r in [8usize, 3, 1 << 20] {
+                    for rc in [false, true] {
+                        huge_fork_probe(&mut rep, cli.seed, r, rc, cli.t(4_000, 200_000));
+                    }
+                }
+                flush(&mut rep);
             }
             rep.exhaustive(format!("capacities 1..=4 x every schedule in {{A,B}}^{} whose lead stays within the capacity, by_ref and by_rc; every schedule of length 10 re-split at every point (second by_ref, and by_rc after by_ref)", len));
             // random long schedules, capacities to 64
